@@ -62,10 +62,19 @@ pub fn run(ctx: &mut Ctx, replay: Option<&str>) {
         let hold = issue_res.out.ok().map(|s| {
             ctx.impl_calls += 1;
             if reuse {
-                let warm_sel = select_all(&f.issue.claims).as_object().cloned().unwrap_or_default();
-                let warmup = match f.issue.holder {
-                    Some(k) => PresentArgs { sel: warm_sel, nonce: Some("warm-up-nonce".into()), aud: Some("https://other-verifier.example".into()), key: Some(k), alg: Some(k.alg().to_string()) },
-                    None => PresentArgs::plain(warm_sel),
+                let mut warm_sel = select_all(&f.issue.claims).as_object().cloned().unwrap_or_default();
+                let warmup = match (ctx.evaluations / 3) % 3 {
+                    // a call that FAILS after it has walked (and collected) everything: a member that does not exist comes last
+                    1 => {
+                        warm_sel.insert("zz\u{1}no-such-claim".into(), json!(true));
+                        PresentArgs::plain(warm_sel)
+                    }
+                    // a call that fails in the key-binding step (nonce without audience and key)
+                    2 => PresentArgs { sel: warm_sel, nonce: Some("n".into()), aud: None, key: None, alg: None },
+                    _ => match f.issue.holder {
+                        Some(k) => PresentArgs { sel: warm_sel, nonce: Some("warm-up-nonce".into()), aud: Some("https://other-verifier.example".into()), key: Some(k), alg: Some(k.alg().to_string()) },
+                        None => PresentArgs::plain(warm_sel),
+                    },
                 };
                 let mut h = holder_session(s, f.issue.fmt, &[warmup, f.present_args()]);
                 if h.calls.len() == 2 {
